@@ -65,6 +65,10 @@ type PathEval[S comparable] struct {
 	// Cond, when non-nil, can refine the state on the two arms of an if
 	// (returned slices may be empty to kill an arm).
 	Cond func(s S, cond ast.Expr, branch bool) []S
+	// Comm, when non-nil, is applied on entry to each clause of a select
+	// statement, before its communication is evaluated (cc.Comm is nil for
+	// the default clause).
+	Comm func(s S, cc *ast.CommClause) []S
 	// Unsupported collects constructs the interpreter cannot follow.
 	Unsupported []ast.Node
 }
@@ -348,6 +352,10 @@ func (pe *PathEval[S]) cases(in set[S], body *ast.BlockStmt) flow[S] {
 			}
 			list = c.Body
 		case *ast.CommClause:
+			if pe.Comm != nil {
+				cc := c
+				cur = pe.mapSet(cur, func(s S) []S { return pe.Comm(s, cc) })
+			}
 			if c.Comm == nil {
 				hasDefault = true
 			} else {
